@@ -77,13 +77,19 @@ func (y *c13Sys) audit(inflight map[string]int) (string, string) {
 	if int(m.Total) != y.issued {
 		return "C13/total-requests-wrong", fmt.Sprintf("total_requests=%d but %d requests reached the balancer", m.Total, y.issued)
 	}
-	if m.Successful+m.Failed+m.RateLimited != m.Total {
-		return "C13/request-not-counted-in-exactly-one-outcome", fmt.Sprintf("successful(%d)+failed(%d)+rate_limited(%d) = %d but total_requests = %d", m.Successful, m.Failed, m.RateLimited, m.Successful+m.Failed+m.RateLimited, m.Total)
+	// (a request still in flight has no outcome yet)
+	pending := uint64(0)
+	for _, n := range inflight {
+		pending += uint64(n)
+	}
+	if m.Successful+m.Failed+m.RateLimited+pending != m.Total {
+		return "C13/request-not-counted-in-exactly-one-outcome", fmt.Sprintf("successful(%d)+failed(%d)+rate_limited(%d) = %d, %d still in flight, but total_requests = %d", m.Successful, m.Failed, m.RateLimited, m.Successful+m.Failed+m.RateLimited, pending, m.Total)
 	}
 	for _, st := range y.k.Stubs() {
 		name := strings.SplitN(st.Host(), ".", 2)[0]
-		if got := int(m.Backends[name].Total); got != st.Hits() {
-			return "C13/per-backend-total-differs-from-requests-sent", fmt.Sprintf("backend %s was sent %d requests but its published total_requests is %d", name, st.Hits(), got)
+		// (a request still in flight is booked when it ends)
+		if got := int(m.Backends[name].Total); got != st.Hits()-inflight[name] {
+			return "C13/per-backend-total-differs-from-requests-sent", fmt.Sprintf("backend %s was sent %d requests (%d of them still in flight) but its published total_requests is %d", name, st.Hits(), inflight[name], got)
 		}
 		if got := int(m.Backends[name].Active); got != inflight[name] {
 			return "C13/gauge/metrics-mirror-differs-from-in-flight", fmt.Sprintf("backend %s has %d requests in flight but the metrics endpoint publishes active_connections=%d", name, inflight[name], got)
@@ -97,7 +103,11 @@ func (y *c13Sys) audit(inflight map[string]int) (string, string) {
 	return "", ""
 }
 
-var c13Events = []string{"req-ok", "req-404", "req-500", "req-refused", "req-abort", "eject-all", "clock+1.1s", "clock+11s", "req-client-gone", "req-103-then-500"}
+// start-held / finish-held: a request that stays in flight at its backend while other events
+// happen (ejections, windows lapsing, the breaker tripping) and is answered 200 when released:
+// the gauges count it for exactly as long as it is in flight
+var c13Events = []string{"req-ok", "req-404", "req-500", "req-refused", "req-abort", "eject-all", "clock+1.1s", "clock+11s", "req-client-gone", "req-103-then-500",
+	"start-held", "finish-held", "req-upgrade-declined"}
 
 type c13Params struct {
 	Strategy         string
@@ -105,10 +115,19 @@ type c13Params struct {
 }
 
 type c13Inst struct {
-	s   *vrt.Sched
-	y   *c13Sys
-	p   c13Params
-	out string
+	s    *vrt.Sched
+	y    *c13Sys
+	p    c13Params
+	out  string
+	held *lbp.VHeld
+}
+
+func (in *c13Inst) inflight() map[string]int {
+	m := map[string]int{}
+	if in.held != nil && in.held.At() != "" && !in.held.Finished() {
+		m[strings.SplitN(in.held.At(), ".", 2)[0]] = 1
+	}
+	return m
 }
 
 func (in *c13Inst) LastOutcome() string { return in.out }
@@ -124,6 +143,32 @@ func (in *c13Inst) Step(ev int) *vh.HViol {
 		in.s.AdvanceQuiet(1100 * time.Millisecond)
 	case "clock+11s":
 		in.s.AdvanceQuiet(11 * time.Second)
+	case "start-held":
+		if in.held != nil {
+			in.out = "already-held"
+			break
+		}
+		in.y.issued++
+		in.held = in.y.k.StartHeld("10.0.0.1")
+		if in.held.Finished() {
+			// turned away before it reached a backend (rate limited, breaker, nobody healthy)
+			in.out = fmt.Sprintf("held-not-forwarded:%d", in.held.Result().Status)
+			in.held = nil
+		} else {
+			in.out = "held-at:" + in.held.At()
+		}
+	case "finish-held":
+		if in.held == nil {
+			in.out = "nothing-held"
+			break
+		}
+		in.y.k.ReleaseHeld(in.held)
+		in.out = fmt.Sprintf("held-finished:%d", in.held.Result().Status)
+		in.held = nil
+	case "req-upgrade-declined":
+		in.y.issued++
+		res := in.y.k.RequestUpgradeDeclined("10.0.0.1")
+		in.out = fmt.Sprintf("%d/%v", res.Status, res.Aborted)
 	case "req-client-gone":
 		// the client has hung up before the balancer gets to see the request (context cancelled)
 		in.y.issued++
@@ -135,7 +180,7 @@ func (in *c13Inst) Step(ev int) *vh.HViol {
 		res := in.y.k.RequestMode("10.0.0.1", mode)
 		in.out = fmt.Sprintf("%d/%v", res.Status, res.Aborted)
 	}
-	if k, w := in.y.audit(map[string]int{}); k != "" {
+	if k, w := in.y.audit(in.inflight()); k != "" {
 		return &vh.HViol{Key: k + "/after-" + e, What: fmt.Sprintf("%s breaker=%v limiter=%v: after %s (%s): %s", in.p.Strategy, in.p.Breaker, in.p.Limiter, e, in.out, w)}
 	}
 	return nil
@@ -143,7 +188,11 @@ func (in *c13Inst) Step(ev int) *vh.HViol {
 
 func (in *c13Inst) Fingerprint() string {
 	// counters grow without bound; what matters for the future is the control state
-	return in.y.k.ControlState()
+	h := "-"
+	if in.held != nil {
+		h = in.held.At()
+	}
+	return in.y.k.ControlState() + "|held:" + h
 }
 
 func c13Spec(p c13Params, depth int) vh.HSpec {
@@ -253,8 +302,8 @@ func c13sScenario(p c13sParams, bound int) vh.SScenario {
 			return out, key, what, true
 		}
 		prelude := 0
+		in := &c13Inst{s: s, y: y, p: c13Params{p.Strategy, p.Breaker, p.Limiter}}
 		if p.Start == "reached" {
-			in := &c13Inst{s: s, y: y, p: c13Params{p.Strategy, p.Breaker, p.Limiter}}
 			for _, e := range p.Prefix {
 				in.Step(e)
 			}
@@ -290,7 +339,8 @@ func c13sScenario(p c13sParams, bound int) vh.SScenario {
 		for _, r := range res {
 			out += fmt.Sprintf("%d/%v ", r.Status, r.Aborted)
 		}
-		if k, w := y.audit(map[string]int{}); k != "" {
+		// (a request the start state holds in flight stays in flight)
+		if k, w := y.audit(in.inflight()); k != "" {
 			key, what = k+"/concurrent", fmt.Sprintf("%s, overlapping requests %v: at quiescence %s", p.Strategy, p.Modes, w)+map[bool]string{true: " (arriving in state " + p.Start + ")"}[p.Start != ""]
 		}
 	}}
